@@ -355,7 +355,7 @@ def target_parallel_any_number():
                          z3.ForAll([j], z3.Implies(z3.And(0 <= j, j < P.L), PSf(P.ent, j + 1) == PSf(P.ent, j) + 1 / val(z3.Select(P.ent, j))), patterns=[PSf(P.ent, j + 1)]))
             return orig_enter(lid, seq, loc)
         vc.loop_enter = enter
-        real = H.build_function(core.find_def("circuit/parallel", label), ns, vc, label=label)
+        real = H.build_function(core.find_def("circuit/parallel", label), ns, vc, label=label, module="circuit/parallel")
         no_raise = make_no_raise("circuit/parallel")
 
         def go(c):
